@@ -6,7 +6,7 @@
 //!   raw off= data= mask= q=                                      arbitrary bytes
 //! Words are printed as 4 hex digits each. blocks: comma list of
 //!   S/<table>;<table>..   table = <key>|<skey>:<svalue>|..
-//!   V/<key>:<value>;..
+//!   V/<key>:<value>;..   or <key>:<value>:<word> for a value with an odd byte count (the last byte is the low half of <word>)
 //!   O/<key>:<children>
 use pelite::image::VS_FIXEDFILEINFO;
 use pelite::resources::version_info::{Language, VersionInfo, Visit};
@@ -27,7 +27,8 @@ fn w(s: &str) -> Vec<u16> {
 
 struct Str { key: Vec<u16>, value: Vec<u16> }
 struct Table { key: Vec<u16>, strings: Vec<Str> }
-enum Block { Strings(Vec<Table>), Vars(Vec<(Vec<u16>, Vec<u16>)>), Other(Vec<u16>, Vec<u16>) }
+struct Var { key: Vec<u16>, value: Vec<u16>, odd: Option<u16> }
+enum Block { Strings(Vec<Table>), Vars(Vec<Var>), Other(Vec<u16>, Vec<u16>) }
 struct Info { key: Vec<u16>, fixed: Vec<u16>, blocks: Vec<Block> }
 
 fn show_blocks(bs: &[Block]) -> String {
@@ -37,7 +38,10 @@ fn show_blocks(bs: &[Block]) -> String {
 			for x in &t.strings { s.push_str(&format!("|{}:{}", whex(&x.key), whex(&x.value))); }
 			s
 		}).collect::<Vec<_>>().join(";")),
-		Block::Vars(vs) => format!("V/{}", vs.iter().map(|(k, v)| format!("{}:{}", whex(k), whex(v))).collect::<Vec<_>>().join(";")),
+		Block::Vars(vs) => format!("V/{}", vs.iter().map(|x| match x.odd {
+			None => format!("{}:{}", whex(&x.key), whex(&x.value)),
+			Some(b) => format!("{}:{}:{}", whex(&x.key), whex(&x.value), whex(&[b])),
+		}).collect::<Vec<_>>().join(";")),
 		Block::Other(k, c) => format!("O/{}:{}", whex(k), whex(c)),
 	}).collect();
 	join(&v, ",")
@@ -53,7 +57,10 @@ fn parse_blocks(s: &str) -> Vec<Block> {
 				let strings = it.map(|x| { let (k, v) = x.split_once(':').unwrap(); Str { key: unwhex(k), value: unwhex(v) } }).collect();
 				Table { key, strings }
 			}).collect()),
-			"V/" => Block::Vars(items.iter().map(|x| { let (k, v) = x.split_once(':').unwrap(); (unwhex(k), unwhex(v)) }).collect()),
+			"V/" => Block::Vars(items.iter().map(|x| {
+				let p: Vec<&str> = x.split(':').collect();
+				Var { key: unwhex(p[0]), value: unwhex(p[1]), odd: if p.len() > 2 { Some(unwhex(p[2])[0]) } else { None } }
+			}).collect()),
 			_ => { let (k, c) = rest.split_once(':').unwrap(); Block::Other(unwhex(k), unwhex(c)) },
 		}
 	}).collect()
@@ -105,8 +112,12 @@ impl Writer {
 				},
 				Block::Vars(vs) => {
 					let s1 = self.open(1, 0, &w("VarFileInfo"), &[], !vs.is_empty());
-					for (j, (k, v)) in vs.iter().enumerate() {
-						let s2 = self.open(0, v.len() * 2, k, v, false);
+					for (j, x) in vs.iter().enumerate() {
+						// an odd byte count: one more byte, stored as the low half of one more word
+						let s2 = match x.odd {
+							None => self.open(0, x.value.len() * 2, &x.key, &x.value, false),
+							Some(b) => { let mut v = x.value.clone(); v.push(b); self.open(0, x.value.len() * 2 + 1, &x.key, &v, false) },
+						};
 						self.close(s2);
 						self.between(j, vs.len());
 					}
@@ -194,7 +205,9 @@ fn gen_info(rng: &mut Rng) -> Info {
 				Block::Vars((0..nv).map(|_| {
 					let k = if rng.chance(1, 5) { gen_key(rng) } else { w("Translation") };
 					let n = match rng.below(6) { 0 => 0, 1 => 1, 2 => 3, 3 => 4, _ => 2 };
-					(k, (0..n).map(|_| match rng.below(3) { 0 => 0x0409, 1 => 0x04B0, _ => rng.next() as u16 }).collect())
+					let value = (0..n).map(|_| match rng.below(3) { 0 => 0x0409, 1 => 0x04B0, _ => rng.next() as u16 }).collect();
+					let odd = if rng.chance(1, 6) { Some(if rng.chance(1, 2) { rng.byte() as u16 } else { rng.next() as u16 }) } else { None };
+					Var { key: k, value, odd }
 				}).collect())
 			},
 			_ => Block::Other(if rng.chance(1, 3) { gen_key(rng) } else { w(*rng.pick(&["StringFileInf", "VarFileInfo2", "Other", "stringfileinfo"])) },
